@@ -6,7 +6,6 @@ package main
 
 import (
 	"bytes"
-	"time"
 	"context"
 	"errors"
 	"flag"
@@ -17,6 +16,7 @@ import (
 	"runtime"
 	"strings"
 	"sync"
+	"time"
 
 	"github.com/ddddddO/gtree"
 	"github.com/fatih/color"
